@@ -17,7 +17,7 @@ def CFG(R, FZ):
         "C12": dict(pkg="c12", level="exploration", runs=[R(name="race", race=True, shards=(8, 16), timeout=(300, 3000))]),
         "C13": dict(pkg="c13", level="exploration", runs=[R(name="race", race=True, shards=(8, 16), timeout=(300, 3000))]),
         "C14": dict(pkg="c14", level="fault_enumeration", runs=[R(shards=(8, 16))]),
-        "C15": dict(pkg="c15", level="exploration", runs=[R(shards=(4, 16))]),
+        "C15": dict(pkg="c15", level="exploration", runs=[R(shards=(8, 16))]),
         "C16": dict(pkg="c16", level="exploration", runs=[R(shards=(4, 16)), R(name="race", race=True, run="TestConcurrent", shards=(2, 4))]),
         "C17": dict(pkg="c17", level="exploration", runs=[R(shards=(4, 16), timeout=(300, 3000)), R(name="race", race=True, run="TestConcurrent", shards=(2, 4)), FZ("FuzzParse", seconds=90)]),
         "C18": dict(pkg="c18", level="exploration", runs=[R(name="race", race=True, shards=(4, 16))]),
